@@ -5,11 +5,11 @@ From BVGen Require Import StatusTable.
 
 (* ---- the ids of the selected scenarios of a subtree, with tag inheritance *)
 Definition sel_rows (cfg : config) (anc : list nat) (rows : list rowspec) : list nat :=
-  map rw_id (filter (fun rw => c_expr cfg (rw_tags rw ++ anc)) rows).
+  map rw_id (filter (fun rw => sel cfg (rw_tags rw ++ anc)) rows).
 
 Definition sitem_sel_ids (cfg : config) (anc : list nat) (it : sitem) : list nat :=
   match it with
-  | SScen s => if c_expr cfg (sc_tags s ++ anc) then [sc_id s] else []
+  | SScen s => if sel cfg (sc_tags s ++ anc) then [sc_id s] else []
   | SOutline o => sel_rows cfg anc (outline_rows o)
   end.
 
@@ -22,8 +22,9 @@ Definition fitem_sel_ids (cfg : config) (anc : list nat) (it : fitem) : list nat
   | FRule r => rule_sel_ids cfg anc r
   end.
 
+(* inside a feature the exclusions made by its before_feature hook are in force (Runner.items_cfg) *)
 Definition feature_sel_ids (cfg : config) (f : feature) : list nat :=
-  flat_map (fitem_sel_ids cfg (f_tags f)) (f_items f).
+  flat_map (fitem_sel_ids (items_cfg cfg (negb (c_dry cfg) && feature_should_run cfg f)) (f_tags f)) (f_items f).
 
 Definition sel_ids (cfg : config) (fs : list feature) : list nat :=
   flat_map (feature_sel_ids cfg) fs.
@@ -165,9 +166,9 @@ Proof. cbn. now rewrite Nat.eqb_refl. Qed.
 
 Lemma run_scenario_scoped cfg st id all_steps oe eff own st' res fld ev :
   run_scenario cfg st id all_steps oe eff own = (st', res, fld, ev) ->
-  scoped (if c_expr cfg eff then [id] else []) ev = true.
+  scoped (if sel cfg eff then [id] else []) ev = true.
 Proof.
-  destruct (c_expr cfg eff) eqn:He.
+  destruct (sel cfg eff) eqn:He.
   - unfold run_scenario. rewrite He.
     assert (Hq : forall (b : bool), scoped [id] (if b then EFmt (FScenario id) :: map (fun s => EFmt (FStepAnn (st_id s))) all_steps else []) = true)
       by (intros b; apply scoped_quiet, scen_ann_quiet).
@@ -212,7 +213,7 @@ Proof.
     destruct stopped.
     + destruct (run_rows cfg st all_steps oe anc r true) as [[[st2 rs2] f2] ev2] eqn:E2.
       intros E; inversion E; subst. apply IH in E2.
-      destruct (c_expr cfg (rw_tags rw ++ anc)); [|exact E2].
+      destruct (sel cfg (rw_tags rw ++ anc)); [|exact E2].
       change (map rw_id (rw :: filter _ r)) with ([rw_id rw] ++ sel_rows cfg anc r). now apply scoped_r.
     + destruct (run_scenario cfg st (rw_id rw) all_steps oe (rw_tags rw ++ anc) (rw_tags rw))
         as [[[st1 res] f1] ev1] eqn:E1.
@@ -220,7 +221,7 @@ Proof.
       match goal with |- context [run_rows cfg st1 all_steps oe anc r ?b] =>
         destruct (run_rows cfg st1 all_steps oe anc r b) as [[[st2 rs2] f2] ev2] eqn:E2 end.
       apply IH in E2. intros E; inversion E; subst. rewrite scoped_app.
-      destruct (c_expr cfg (rw_tags rw ++ anc)).
+      destruct (sel cfg (rw_tags rw ++ anc)).
       * change (map rw_id (rw :: filter _ r)) with ([rw_id rw] ++ sel_rows cfg anc r).
         rewrite (scoped_l _ _ _ E1), (scoped_r _ _ _ E2). reflexivity.
       * fold (sel_rows cfg anc r). rewrite E2, andb_true_r.
@@ -263,7 +264,7 @@ Proof.
   unfold run_rule, rule_sel_ids. set (ids := flat_map _ (r_items r)).
   assert (Hann : forall (b hb : bool) l, scoped ids (if b then EFmt (FRuleEv (r_id r)) :: (if hb then [EFmt (FBackground l)] else []) else []) = true)
     by (intros [] [] l; reflexivity).
-  destruct (negb (c_dry cfg) && rule_should_run cfg anc r).
+  destruct (negb (c_dry cfg) && rule_runs cfg anc r).
   - destruct (run_tag_hooks cfg (push st) HBeforeTag (r_tags r)) as [[sa b1] e1] eqn:E1.
     eapply (rth_other _ _ (ids)) in E1; [|reflexivity].
     destruct (run_hook cfg sa HBeforeRule (r_id r)) as [[sb b2] e2] eqn:E2.
@@ -371,7 +372,7 @@ Qed.
 
 (* ---- a selected scenario does run its hooks / first step *)
 Lemma selected_scenario_runs_before_hook cfg st id all_steps oe eff own st' res fld ev :
-  c_expr cfg eff = true -> c_dry cfg = false -> c_hooks cfg HBeforeScenario = true ->
+  sel cfg eff = true -> c_dry cfg = false -> c_hooks cfg HBeforeScenario = true ->
   run_scenario cfg st id all_steps oe eff own = (st', res, fld, ev) ->
   In (EHook HBeforeScenario id (c_faults cfg HBeforeScenario id)) ev.
 Proof.
@@ -391,7 +392,7 @@ Qed.
 (* ---- a rule / outline / feature none of whose scenarios is selected ends skipped *)
 Lemma unselected_rows_skipped cfg all_steps oe anc rows : forall st,
   aborted st = false -> all_steps <> [] ->
-  forallb (fun rw => negb (c_expr cfg (rw_tags rw ++ anc))) rows = true ->
+  forallb (fun rw => negb (sel cfg (rw_tags rw ++ anc))) rows = true ->
   exists rs ev, run_rows cfg st all_steps oe anc rows false = (st, rs, false, ev) /\
     forallb (fun r => status_eqb (st_or_unknown (sr_status r)) skipped) rs = true /\
     length rs = length rows /\ allq ev = true.
@@ -417,7 +418,7 @@ Definition sitem_nonempty (bg : list step) (it : sitem) : bool :=
 
 Lemma unselected_sitems_skipped cfg bg anc items : forall st,
   aborted st = false ->
-  forallb (fun it => negb (sitem_should_run cfg anc it) && sitem_nonempty bg it) items = true ->
+  forallb (fun it => negb (sitem_any_sel cfg anc it) && sitem_nonempty bg it) items = true ->
   exists rs ev, run_sitems cfg st bg anc items false = (st, rs, false, ev) /\
     forallb (fun r => status_eqb (item_status r) skipped) rs = true /\ length rs = length items /\
     allq ev = true.
@@ -427,18 +428,18 @@ Proof.
   - cbn [forallb] in Hall. apply andb_true_iff in Hall as [H1 H2].
     apply andb_true_iff in H1 as [Hs Hn]. apply negb_true_iff in Hs.
     destruct (IH st Ha H2) as (rs & ev & E & A & B & Q).
-    destruct it as [s|o]; cbn [run_sitem sitem_should_run sitem_nonempty] in *.
+    destruct it as [s|o]; cbn [run_sitem sitem_any_sel sitem_nonempty] in *.
     + rewrite (run_scenario_unselected _ _ _ _ _ _ _ Hs). rewrite Ha. cbn [andb]. rewrite E.
       eexists; eexists; split; [reflexivity|]. cbn [forallb length item_status sr_status]. rewrite A, B.
       split; [|split; [reflexivity|]].
       * rewrite andb_true_r. destruct (bg ++ sc_steps s) as [|x y] eqn:Eb; reflexivity.
       * rewrite allq_app, Q, andb_true_r. apply scen_ann_quiet.
-    + apply orb_false_iff in Hs as [_ Hrows]. apply andb_true_iff in Hn as [Hn1 Hn2].
+    + rename Hs into Hrows. apply andb_true_iff in Hn as [Hn1 Hn2].
       unfold run_outline.
-      assert (Hr : forallb (fun rw => negb (c_expr cfg (rw_tags rw ++ anc))) (outline_rows o) = true).
+      assert (Hr : forallb (fun rw => negb (sel cfg (rw_tags rw ++ anc))) (outline_rows o) = true).
       { rewrite forallb_forall. intros x Hx. apply negb_true_iff.
-        destruct (c_expr cfg (rw_tags x ++ anc)) eqn:Ex; [|reflexivity].
-        assert (existsb (fun rw => c_expr cfg (rw_tags rw ++ anc)) (outline_rows o) = true)
+        destruct (sel cfg (rw_tags x ++ anc)) eqn:Ex; [|reflexivity].
+        assert (existsb (fun rw => sel cfg (rw_tags rw ++ anc)) (outline_rows o) = true)
           by (apply existsb_exists; exists x; auto). congruence. }
       assert (Hne : bg ++ o_steps o <> []) by (destruct (bg ++ o_steps o); [discriminate|congruence]).
       destruct (unselected_rows_skipped cfg (bg ++ o_steps o)
@@ -460,19 +461,21 @@ Proof. destruct st; reflexivity. Qed.
 
 Theorem unselected_rule_is_skipped cfg st r anc inh fhb :
   aborted st = false ->
-  rule_should_run cfg anc r = false ->
+  rule_runs cfg anc r = false ->
   forallb (sitem_nonempty (inh ++ opt_steps (r_bg r))) (r_items r) = true ->
   exists res ev, run_rule cfg st r anc inh fhb = (st, res, false, ev) /\
     rr_status res = skipped /\ rr_hook_failed res = false /\ allq ev = true.
 Proof.
   intros Ha Hs Hn. unfold run_rule. rewrite Hs. rewrite andb_false_r. cbn [orb].
-  unfold rule_should_run in Hs. apply orb_false_iff in Hs as [_ Hitems].
-  assert (Hall : forallb (fun it => negb (sitem_should_run cfg (r_tags r ++ anc) it) &&
+  assert (Hall : forallb (fun it => negb (sitem_any_sel cfg (r_tags r ++ anc) it) &&
                                      sitem_nonempty (inh ++ opt_steps (r_bg r)) it) (r_items r) = true).
   { rewrite forallb_forall in *. intros x Hx. rewrite (Hn x Hx), andb_true_r. apply negb_true_iff.
-    destruct (sitem_should_run cfg (r_tags r ++ anc) x) eqn:Ex; [|reflexivity].
-    assert (existsb (sitem_should_run cfg (r_tags r ++ anc)) (r_items r) = true)
-      by (apply existsb_exists; exists x; auto). congruence. }
+    unfold rule_runs in Hs. apply andb_false_iff in Hs as [Hs|Hs].
+    - apply sitem_any_sel_le. unfold rule_should_run in Hs. apply orb_false_iff in Hs as [_ Hitems].
+      destruct (sitem_should_run cfg (r_tags r ++ anc) x) eqn:Ex; [|reflexivity].
+      assert (existsb (sitem_should_run cfg (r_tags r ++ anc)) (r_items r) = true)
+        by (apply existsb_exists; exists x; auto). congruence.
+    - apply sitem_any_sel_excluded. now apply negb_false_iff in Hs. }
   destruct (unselected_sitems_skipped cfg (inh ++ opt_steps (r_bg r)) (r_tags r ++ anc) (r_items r)
               (push st) Ha Hall) as (rs & ev & E & A & B & Q).
   rewrite Ha. rewrite E. rewrite pop_push.
